@@ -105,9 +105,9 @@ func FreeVarBinding(fv *ssa.FreeVar) []ssa.Value {
 
 // FlowOpts selects which producer edges Backward follows.
 type FlowOpts struct {
-	AppendBase  bool // append(s, xs...) -> s
-	AppendElems bool // append(s, xs...) -> xs (and the elements packed into a varargs array)
-	Loads       bool // *alloc -> values stored into alloc (local cells, captured variables)
+	AppendBase  bool                          // append(s, xs...) -> s
+	AppendElems bool                          // append(s, xs...) -> xs (and the elements packed into a varargs array)
+	Loads       bool                          // *alloc -> values stored into alloc (local cells, captured variables)
 	Calls       func(c *ssa.Call) []ssa.Value // optional: how to look through a call (return the values it forwards)
 }
 
